@@ -418,9 +418,7 @@ def main(tier):
         chk.extra["mutations_tie_skipped"] = f"{type(e).__name__}: {e}"[:300]
     idis = interleaved(chk, rng, tier, pairs, answers, limit, stats)
 
-    # a disagreement between model and code is reported with its input so that it can be replayed
-    for d in (dis + ddis + mdis + idis)[:20]:
-        chk.add_failure(d.get("input"), {"what": "model and implementation disagree", **{k: v for k, v in d.items() if k != "input"}}, None)
+    # (a disagreement between model and code is a broken correspondence: finish() reports it, with the first disagreements in the replay)
 
     chk.extra.update(
         pairs=len(pairs),
@@ -459,8 +457,10 @@ def replay(path):
     d = json.load(open(path))
     print(json.dumps(d, indent=1))
     inp = d.get("input")
-    if not isinstance(inp, dict) or "F_idx" not in inp:
-        return 1
+    if d.get("kind") != "failing-input" or not isinstance(inp, dict) or "F_idx" not in inp:
+        from ..core import replay_by_rerun
+
+        return replay_by_rerun(main, path)
     fi, ti, limit, depth = tuple(inp["F_idx"]), tuple(inp["T_idx"]), inp["limit"], inp["rounds"]
     chk = Check("C19", "replay")
     model = parse_answer(driver.run([f"construct {depth} {limit} {show_vals(fi)} {show_vals(ti)}"], **EXE)[0])
